@@ -100,14 +100,17 @@ PROPS = {
     'C02': dict(
         title='Hayson encode -> decode returns the original value',
         verus=[],
-        kani=[dict(harness='k_json_number_exact', klass='complete', schema=['f64'], family='json-number', target='<Number as Serialize>::serialize'),
+        kani=[dict(harness='k_json_visit_numbers', klass='complete', schema=None, family=None, target='JsonValueDecoderVisitor::visit_{i8..u64,f64}'),
+              dict(harness='k_json_visit_bool_null', klass='complete', schema=['bool'], family=None, target='JsonValueDecoderVisitor::visit_bool/visit_unit'),
+              dict(harness='k_json_number_exact', klass='complete', schema=['f64'], family='json-number', target='<Number as Serialize>::serialize'),
               dict(harness='k_json_number_unit_trace', klass='complete', schema=['f64'], family='json-number', target='<Number as Serialize>::serialize (with unit)')],
         witness=None,
         design_ref='DESIGN.md section 4, C02',
         level_text=('Proof (Kani/CBMC, complete over all f64) of the number clause: the real <Number as Serialize>::serialize, run into a '
                     'recording Serializer, emits exactly one JSON number denoting the same f64 (integer form only when exact and not -0.0), '
                     'the Hayson string form for INF/-INF/NaN, and {_kind:number,val:<same f64>,unit:<symbol>} when a unit is present: '
-                    'no finite number changes magnitude and no number changes kind.'),
+                    'no finite number changes magnitude and no number changes kind. Reader side: the decoder visitor turns a JSON number of '
+                    'every class serde_json hands over (i8..i64, u8..u64, f64 -- complete over each domain) into the unit-less Number with exactly that value.'),
         not_decided=('serde_json itself (text <-> call trace, 128-level recursion limit); Date/Time/DateTime text (chrono; kernel in C06); '
                      'List/Dict/Grid (serialize_seq/visit_map are generic over external traits); the decode helpers parse_* of decode.rs; '
                      'typed Deserialize impls.'),
@@ -116,7 +119,9 @@ PROPS = {
     'C05': dict(
         title='Hayson JSON conforms to the Project Haystack JSON encoding',
         verus=[],
-        kani=[dict(harness='k_json_scalar_traces', klass='complete', schema=['u8', 'f64', 'f64'], family=None, target='Serialize for Marker/Na/Remove/Coord/Symbol/Uri/Ref/XStr'),
+        kani=[dict(harness='k_json_visit_numbers', klass='complete', schema=None, family=None, target='JsonValueDecoderVisitor::visit_{i8..u64,f64}'),
+              dict(harness='k_json_visit_bool_null', klass='complete', schema=['bool'], family=None, target='JsonValueDecoderVisitor::visit_bool/visit_unit'),
+              dict(harness='k_json_scalar_traces', klass='complete', schema=['u8', 'f64', 'f64'], family=None, target='Serialize for Marker/Na/Remove/Coord/Symbol/Uri/Ref/XStr'),
               dict(harness='k_json_number_exact', klass='complete', schema=['f64'], family='json-number', target='<Number as Serialize>::serialize'),
               dict(harness='k_json_number_unit_trace', klass='complete', schema=['f64'], family='json-number', target='<Number as Serialize>::serialize (with unit)')],
         witness=None,
